@@ -581,6 +581,15 @@ def absorbed_rows(nd):
         row = ["t1"] * nd                               # slice in a batch position, tensors in both matrix positions
         row[j % (nd - 2)] = k
         rows.append(tuple(row))
+    # batch-only indexing (full slices in both matrix positions): several classes special-case it in _getitem
+    for j, k in enumerate(ix.KINDS):
+        if k in ("full", "t2"):
+            continue
+        row = ["full"] * nd
+        row[j % (nd - 2)] = k
+        if nd >= 4:
+            row[(j + 1) % (nd - 2)] = ix.KINDS[(j + 5) % 12]
+        rows.append(tuple(row))
     rows = [r for r in rows if ix.valid_kinds(r, nd)]
     _AB_CACHE[nd] = rows
     return rows
